@@ -3,7 +3,7 @@ Tie 1 (translator): Gen/step_gen.v = stepUp..d3stepAny regenerated from Scalar.h
         (lib/tvgen.py) on arguments inside the asserted domain.
 Tie 2 (correspondence): hand model C41_Model.v of Function_<Real>::{Constant,Linear,Polynomial,Sinusoid,Step} extracted to
         OCaml and run against the compiled Function.h objects on the same generated cases (harness/C41_func.cpp, -DNDEBUG)."""
-import os, sys
+import os, sys, math
 from vlib import *
 import tvgen
 
@@ -120,6 +120,82 @@ def correspondence(ctx, n):
         c, a, b = dis[0]
         ctx.broken.append(('correspondence:C41:' + c.split()[0], 'model and implementation differ on case "%s": cxx=%s model=%s (%d disagreements)' % (c, a, b, len(dis))))
 
+def spline_cases(ctx, nspl):
+    """splines of degree 1,3,5,7 fitted by the implementation to random data; arguments at the ends, at knots, a few ulps
+    and 1e-9 around knots, and inside intervals"""
+    r = ctx.rng; H = hexf; lines = []; meta = []; hist = {}
+    for c in range(nspl):
+        deg = r.choice((1, 3, 3, 5, 7)); n = r.randint(deg + 3, 40)
+        uniform = r.random() < 0.35
+        xs = [r.uniform(-3, 3)]
+        for i in range(n - 1): xs.append(xs[-1] + (0.25 if uniform else r.uniform(0.05, 0.8)))
+        amp = 10 ** r.uniform(-1, 1); w = r.uniform(0.3, 2)
+        ys = [amp * (math.sin(w * v) + 0.3 * r.uniform(-1, 1)) for v in xs]
+        kind = r.choice(('interpolating', 'interpolating', 'smoothing', 'smoothing', 'gcv'))
+        mode, param = {'interpolating': (0, 0.0), 'smoothing': (0, 10 ** r.uniform(-4, 0)), 'gcv': (1, 0.0)}[kind]
+        ts = [xs[0], xs[-1]]
+        for _ in range(3):
+            i = r.randrange(1, n - 1); ts.append(xs[i])
+            i = r.randrange(1, n - 1); ts.append(math.nextafter(xs[i], -1e9) if r.random() < 0.5 else math.nextafter(xs[i], 1e9))
+            i = r.randrange(1, n - 1); ts.append(xs[i] + r.choice((-1, 1)) * 1e-9)
+        ts += [r.uniform(xs[0], xs[-1]) for _ in range(5)]
+        ts += [xs[0] + r.random() * (xs[deg] - xs[0]), xs[-1] - r.random() * (xs[-1] - xs[-1 - deg])]      # boundary intervals
+        ts = [min(max(t, xs[0]), xs[-1]) for t in ts]
+        lines.append(' '.join([str(deg), str(mode), H(param), str(n)] + [H(v) for v in xs + ys] + [str(len(ts))] + [H(v) for v in ts]))
+        meta.append((deg, n, xs, ts))
+        for tag in ('degree/%d' % deg, 'fit/' + kind, 'knots/' + ('uniform' if uniform else 'random')): hist[tag] = hist.get(tag, 0) + 1
+    return lines, meta, hist
+
+def spline_correspondence(ctx, nspl):
+    """extracted evaluator (C41_spline_Model.v: search_ + SimTK_splder_ + Spline_ dispatch) against Spline_::calcValue /
+    calcDerivative, orders 0..degree+1, on the knots and coefficients produced by the implementation's SplineFitter"""
+    d = ctx.bdir('spl'); os.makedirs(d, exist_ok=True)
+    ext = ('From Coq Require Import Extraction ExtrOcamlBasic.\nRequire Import Num C41_spline_Model.\nExtraction Language OCaml.\n'
+           'Extraction "c41s_x.ml" spline_value spline_deriv.\n')
+    if not ctx.extract(ext, d):
+        ctx.broken.append(('correspondence:C41:spline', 'extraction of the spline model failed')); return
+    drv = open(os.path.join(VERIF, 'ocaml', 'C41_spline_drv.ml')).read().replace('(*FOPS*)', open(os.path.join(VERIF, 'ocaml', 'fops.inc')).read())
+    open(os.path.join(d, 'drv.ml'), 'w').write(drv)
+    if not ctx.ocaml(d, ['c41s_x.mli', 'c41s_x.ml', 'drv.ml'], 'drv'):
+        ctx.broken.append(('correspondence:C41:spline', 'OCaml driver build failed')); return
+    exe = os.path.join(d, 'spline')
+    if not ctx.cxx(os.path.join(VERIF, 'harness', 'C41_spline.cpp'), exe):
+        ctx.broken.append(('correspondence:C41:spline', 'C++ harness does not compile against the current source')); return
+    lines, meta, hist = spline_cases(ctx, nspl)
+    inp = '\n'.join(lines) + '\n'
+    open(os.path.join(d, 'cases.txt'), 'w').write(inp)
+    rc1, o1, e1 = sh([exe], input=inp, timeout=900)
+    l1 = [l for l in o1.split('\n') if l.strip()]
+    if rc1 != 0 or len(l1) != len(lines):
+        ctx.broken.append(('correspondence:C41:spline', 'C++ runner failed rc=%s lines=%d of %d: %s' % (rc1, len(l1), len(lines), e1[-300:]))); return
+    dl = []; keep = []; fitfail = 0
+    for (deg, n, xs, ts), a in zip(meta, l1):
+        if a.startswith('EXC'): fitfail += 1; continue
+        cs = a.split('|')[0].split()
+        dl.append(' '.join([str(deg), str(n)] + [hexf(v) for v in xs] + cs + [str(len(ts))] + [hexf(v) for v in ts])); keep.append((deg, n, xs, ts, a))
+    rc2, o2, e2 = sh([os.path.join(d, 'drv')], input='\n'.join(dl) + '\n', timeout=900)
+    l2 = [l for l in o2.split('\n') if l.strip()]
+    if rc2 != 0 or len(l2) != len(keep):
+        ctx.broken.append(('correspondence:C41:spline', 'model runner failed rc=%s lines=%d of %d: %s' % (rc2, len(l2), len(keep), e2[-300:]))); return
+    dis = []; nval = 0; bit = 0; nontrivial = set(); sample = None
+    for (deg, n, xs, ts, a), b in zip(keep, l2):
+        va = [float.fromhex(v) for v in a.split('|')[1].split()]; vb = [float.fromhex(v) for v in b.split()]
+        if len(va) != len(vb) or len(va) != len(ts) * (deg + 2):
+            dis.append('degree %d n=%d: %d/%d values' % (deg, n, len(va), len(vb))); continue
+        for i, (p, q) in enumerate(zip(va, vb)):
+            nval += 1; bit += (p == q)
+            e, order = divmod(i, deg + 2)
+            if not close(p, q, 1e-12, 1e-300, max(1.0, abs(p), abs(q))):
+                dis.append('degree %d n=%d order %d at x=%r (knots %r..%r): cxx %r model %r' % (deg, n, order, ts[e], xs[0], xs[-1], p, q))
+            if p != 0: nontrivial.add((tuple(xs), ts[e], order))
+        if sample is None: sample = {'spline': 'degree %d, %d knots' % (deg, n), 'x': ts[4], 'cxx orders 0..degree+1': va[4*(deg+2):5*(deg+2)], 'model': vb[4*(deg+2):5*(deg+2)]}
+    ctx.add_cases(nval, len(nontrivial), [sample] if sample else None)
+    ctx.extra.setdefault('correspondence', {})['splines'] = {'splines': len(keep), 'fits_that_threw': fitfail, 'values_compared': nval, 'values_bitwise_equal': bit,
+        'disagreements': len(dis), 'rtol': 1e-12, 'input_distribution': dict(sorted(hist.items()))}
+    ctx.trusted.add('spline correspondence harness harness/C41_spline.cpp + ocaml/C41_spline_drv.ml (float NumOps), tolerance 1e-12 rel; knots and coefficients taken from the implementation (fitting not modelled)')
+    if dis:
+        ctx.broken.append(('correspondence:C41:spline', 'spline evaluation model and implementation differ: %s (%d disagreements)' % (dis[0], len(dis))))
+
 def search(ctx, n):
     """failing-input search on the implementation: the property's predicates by finite differences"""
     exe = ctx.bdir('C41_search')
@@ -136,6 +212,22 @@ def search(ctx, n):
         if key in seen or len(seen) >= 3: continue      # at most three distinct failing predicates are reported
         seen.add(key)
         ctx.report('impl:' + key, 'implementation violates C41 predicate: ' + f, {'replay_cmd': '%s %d %d' % (exe, ctx.seed, n), 'failing_input': f})
+    # spline predicates (interpolation, derivative consistency by finite differences, continuity across knots)
+    exe = ctx.bdir('C41_spline_search')
+    if not ctx.cxx(os.path.join(VERIF, 'harness', 'C41_spline_search.cpp'), exe):
+        ctx.broken.append(('search:C41:spline', 'spline search harness does not compile')); return
+    ns = max(n // 2, 100)
+    rc, out, err = sh([exe, str(ctx.seed), str(ns)], timeout=1200)
+    fails = [l for l in out.split('\n') if l.startswith('FAIL')]
+    done = [l for l in out.split('\n') if l.startswith('DONE')]
+    ctx.extra['spline_search'] = {'predicate_evaluations': int(done[0].split()[1]) if done else 0, 'failures': len(fails)}
+    if not done: ctx.broken.append(('search:C41:spline', 'spline search harness crashed rc=%s %s' % (rc, err[-300:])))
+    seen = set()
+    for f in fails:
+        key = f.split()[1]
+        if key in seen: continue
+        seen.add(key)
+        ctx.report('impl:' + key, 'implementation violates C41 spline predicate: ' + f, {'replay_cmd': '%s %d %d' % (exe, ctx.seed, ns), 'failing_input': f})
 
 def run(ctx):
     ctx.build_repo()
@@ -150,6 +242,8 @@ def run(ctx):
     ctx.log('translator validation done: %d disagreements' % len(dis))
     correspondence(ctx, 150 if quick else 3000)
     ctx.log('function-object correspondence done')
+    spline_correspondence(ctx, 60 if quick else 600)
+    ctx.log('spline evaluation correspondence done')
     ctx.cov['rule'] = ('(a) translator validation: each of the 12 translated step kernels on arguments inside the asserted domain (0, 1, 1/2 and uniform); '
                        '(b) correspondence: per kind (Constant, Linear, Polynomial, Sinusoid, Step, raw stepAny family) generated parameters, derivative '
                        'component lists / orders around every case split (order vs degree, Sinusoid orders 0..13, Step before/at/inside/after both directions, '
